@@ -115,6 +115,7 @@ class _SubstNames(ast.NodeTransformer):
 
 
 # ---------------------------------------------------------------------------
+TABLE_RESOLVER = [None]   # module-level displays: Name -> ast or None
 RANGES = [0]     # > 0: constant range(a, b) loops up to that size unroll too
 
 
@@ -135,6 +136,11 @@ def _rows(it, defs, fn):
     if isinstance(it, ast.Name) and it.id in defs and isinstance(
             defs[it.id], (ast.Tuple, ast.List)) and not _mutated(fn, it.id):
         return _rows(defs[it.id], defs, fn)
+    if isinstance(it, ast.Name) and TABLE_RESOLVER[0] is not None and \
+            it.id not in _stores(fn):
+        t = TABLE_RESOLVER[0](it)
+        if isinstance(t, (ast.Tuple, ast.List)):
+            return _rows(t, defs, fn)
     if isinstance(it, ast.Call) and isinstance(it.func, ast.Name) and \
             not it.keywords:
         if it.func.id == "enumerate" and 1 <= len(it.args) <= 2:
@@ -655,6 +661,47 @@ def unroll_any_all(fn):
     return cnt[0]
 
 
+def fold_module_constants(fn, world, modname):
+    """Loads of module-level names bound once to an int / str / bytes
+    literal are written as the literal (`_LATCH = 0xAA` ... `f(_LATCH)`).
+    Returns the number of substitutions (fn modified in place)."""
+    local = set(_stores(fn))
+    cnt = [0]
+    cache = {}
+
+    def const_of(name):
+        if name not in cache:
+            v = None
+            try:
+                b = world.ns.get(modname, {}).get(name)
+            except Exception:
+                b = None
+            if b is not None and getattr(b, "kind", None) == "expr" and \
+                    getattr(b, "mod", modname) == modname:
+                e = getattr(b, "value", None)
+                if isinstance(e, ast.Constant) and type(e.value) in (
+                        int, str, bytes):
+                    v = e
+                elif isinstance(e, ast.UnaryOp) and isinstance(
+                        e.op, ast.USub) and isinstance(
+                            e.operand, ast.Constant) and type(
+                                e.operand.value) is int:
+                    v = e
+            cache[name] = v
+        return cache[name]
+
+    class X(ast.NodeTransformer):
+        def visit_Name(self, n):
+            if isinstance(n.ctx, ast.Load) and n.id not in local:
+                v = const_of(n.id)
+                if v is not None:
+                    cnt[0] += 1
+                    return ast.copy_location(acopy(v), n)
+            return n
+    X().visit(fn)
+    return cnt[0]
+
+
 def detable(fn, ranges=0):
     """All of the above on a copy of fn; returns (fn, what was done).
     ranges > 0 also unrolls `for i in range(<const>, <const>)` loops of at
@@ -982,6 +1029,77 @@ def unroll_collection_comps(fn):
                     continue
                 cnt[0] -= 1
             out.append(s)
+        return out
+    fn.body = block(fn.body)
+    return cnt[0]
+
+
+def fold_or_idiom(fn):
+    """`t = A; if t: return t; [else:] return B`  ->  `return A or B`
+    (also `return t if t else B`), when t is read nowhere else.  The two
+    spellings evaluate A once and B only when A is falsy.  Returns the number
+    of folds (fn modified in place)."""
+    cnt = [0]
+
+    def loads(name):
+        return sum(1 for n in ast.walk(fn) if isinstance(n, ast.Name) and
+                   n.id == name and isinstance(n.ctx, ast.Load))
+
+    def block(stmts):
+        out = []
+        i = 0
+        while i < len(stmts):
+            s = stmts[i]
+            for fld in ("body", "orelse", "finalbody"):
+                sub = getattr(s, fld, None)
+                if isinstance(sub, list) and sub and isinstance(
+                        sub[0], ast.stmt) and not isinstance(
+                            s, (ast.FunctionDef, ast.AsyncFunctionDef,
+                                ast.ClassDef)):
+                    setattr(s, fld, block(sub))
+            if isinstance(s, ast.Try):
+                for h in s.handlers:
+                    h.body = block(h.body)
+            if isinstance(s, ast.Assign) and len(s.targets) == 1 and \
+                    isinstance(s.targets[0], ast.Name) and i + 1 < len(stmts):
+                t = s.targets[0].id
+                nxt = stmts[i + 1]
+                b_expr = None
+                used = 0
+                consumed = 0
+                if isinstance(nxt, ast.If) and isinstance(
+                        nxt.test, ast.Name) and nxt.test.id == t and len(
+                            nxt.body) == 1 and isinstance(
+                                nxt.body[0], ast.Return) and isinstance(
+                                    nxt.body[0].value, ast.Name) and \
+                        nxt.body[0].value.id == t:
+                    if len(nxt.orelse) == 1 and isinstance(
+                            nxt.orelse[0], ast.Return) and \
+                            nxt.orelse[0].value is not None:
+                        b_expr, used, consumed = nxt.orelse[0].value, 2, 2
+                    elif not nxt.orelse and i + 2 < len(stmts) and \
+                            isinstance(stmts[i + 2], ast.Return) and \
+                            stmts[i + 2].value is not None:
+                        b_expr, used, consumed = stmts[i + 2].value, 2, 3
+                elif isinstance(nxt, ast.Return) and isinstance(
+                        nxt.value, ast.IfExp) and isinstance(
+                            nxt.value.test, ast.Name) and \
+                        nxt.value.test.id == t and isinstance(
+                            nxt.value.body, ast.Name) and \
+                        nxt.value.body.id == t:
+                    b_expr, used, consumed = nxt.value.orelse, 2, 2
+                if b_expr is not None and loads(t) == used and not any(
+                        isinstance(n, ast.Name) and n.id == t
+                        for n in ast.walk(b_expr)):
+                    r = ast.copy_location(ast.Return(ast.BoolOp(
+                        ast.Or(), [s.value, b_expr])), s)
+                    ast.fix_missing_locations(r)
+                    out.append(r)
+                    cnt[0] += 1
+                    i += consumed
+                    continue
+            out.append(s)
+            i += 1
         return out
     fn.body = block(fn.body)
     return cnt[0]
